@@ -17,6 +17,8 @@
 #include <sys/wait.h>
 #include <unistd.h>
 
+extern "C" void __sanitizer_set_report_fd(void *fd);
+
 namespace fw {
 
 static std::string g_scratch, g_tier = "quick", g_build = "/verif/build";
@@ -199,6 +201,7 @@ static CaseResult run_isolated_once(const std::vector<uint32_t> &words, long swe
         // sanitizer reports go to fd 2 of the case process; keep a private
         // copy so that cases which close or redirect 0-2 still report.
         dup2(ehi, 2);
+        __sanitizer_set_report_fd((void *) (intptr_t) ehi);
         setenv("VERIF_CASE_STDERR_FD", std::to_string(ehi).c_str(), 1);
       }
     }
